@@ -257,7 +257,7 @@ def main():
         if len(samples) < 3 and len(c["params"]) >= 4:
             samples.append({"source": r["src"], "calls": [[x["plain"], x["wrapped"], x["body_runs"]] for x in r["calls"]]})
     # small programs of well-typed calls, decorated vs plain
-    scen = vf.impl("impl_wrap.py", {"scenarios": [[n, c] for n in ("loader", "helper_binds") for c in ("typeguard", "beartype")]}, timeout=600)
+    scen = vf.impl("impl_wrap.py", {"scenarios": [[n, c] for n in ("loader", "helper_binds") for c in ("typeguard", "beartype")] + [["forward_ref", "typeguard"]]}, timeout=600)      # (beartype resolves quoted names through sys.modules[fn.__module__]: not available for a function made by exec)
     for sc in scen:
         ncalls += len(sc["plain"])
         R.count("scenario:" + sc["scenario"])
